@@ -2069,6 +2069,13 @@ impl<F: VfsFile> BPlusTree<F> {
 
 		// Proceed with redistribution
 		let new_separator = left_node.redistribute_to_right(right_node);
+		// The overflow chain recorded for this slot holds the tail of the OLD separator:
+		// release it, and let the node writer build a chain for the new key if needed.
+		let old_overflow = parent.get_overflow_at(left_idx);
+		if old_overflow != 0 {
+			self.free_overflow_chain(old_overflow)?;
+			parent.set_overflow_at(left_idx, 0);
+		}
 		parent.keys[left_idx] = new_separator;
 
 		self.write_node_owned(NodeType::Leaf(left_node.clone()))?;
@@ -2133,6 +2140,13 @@ impl<F: VfsFile> BPlusTree<F> {
 
 		// Proceed with redistribution
 		let new_separator = left_node.take_from_right(right_node);
+		// The overflow chain recorded for this slot holds the tail of the OLD separator:
+		// release it, and let the node writer build a chain for the new key if needed.
+		let old_overflow = parent.get_overflow_at(left_idx);
+		if old_overflow != 0 {
+			self.free_overflow_chain(old_overflow)?;
+			parent.set_overflow_at(left_idx, 0);
+		}
 		parent.keys[left_idx] = new_separator;
 
 		self.write_node_owned(NodeType::Leaf(left_node.clone()))?;
